@@ -124,4 +124,12 @@ PROPS = {
         "explanation": "(a) 900+ helper cases through the hook; (b) 23 (thorough 77) schedules of the real leader/signer ticks replayed in the model label by label, runs of the real enableNotary loops; (c) concurrent deploy.Deploy runs with final state and idle re-run compared with DeployProto.final_state",
         "assumptions": ["members hold GAS for their own transactions (pre-funded by the harness)", "the chain includes every valid pooled transaction eventually; ErrInvalidSignature (-508) / ErrVerificationFailed (-500) as mapped by neo-go rpcsrv"],
     },
+    "C16": {
+        "level_text": "Gate theorem (update halts only with the witness of the n/2+1 multisignature account of the committee - of the designated NeoFS Alphabet for neofs/processing - and only for PrevVersion <= v < Version; otherwise nothing changes), per-contract preservation theorems (key-by-key characterisation of the Balance and Container re-keying loops over the Find snapshot, Netmap snapshot/candidate re-encoding via a proved Serialize/Deserialize round trip, subscribers, NNS TLD owners, notary leftovers, trivial contracts) and the pending-votes block proved in Coq for every storage, version and signer context; container listing preservation refuted for a 57-byte estimation key (known finding) and proved under a decidable layout predicate; model tied to the code by differential runs of the 11 real contracts (version constant patched per deployed version) and of real migrations on injected legacy storages",
+        "level_note": "Trusted: Coq kernel; hand-written model validated differentially (gate sweep, storage-injector stub, Alphabet GAS distribution); CreateMultisigAccount/CreateStandardAccount/RIPEMD-160 abstract (tables of real values in the cases); Management's NEF/manifest checks abstracted as a boolean; legacy read API defined from the legacy layout; witness scopes and gas not modelled",
+        "technique": "machine-checked proof in Rocq (Coq): one-step theorems for all states + model/implementation correspondence",
+        "harness_test": "TestC16",
+        "explanation": "Gate/preservation/pending-votes theorems valid from every storage (Proofs/Migration.v); correspondence: 11 real contracts x deployed versions around both bounds x 9 signer sets, plus seeded legacy storages migrated by the real _deploy through the injector stub, plus the Alphabet GAS distribution",
+        "assumptions": ["layout premises of the quantifier: legacy_wf_balance (no prefixed namesake of an account), legacy_wf_container (decidable; every 57-byte key is a genuine owner-index entry, nothing else under 'x'/'o'), legacy snapshot/candidate values were written by std.Serialize", "recipients of the Alphabet's GAS transfers accept them (oracle); Notary native not active on the test chain"],
+    },
 }
